@@ -104,6 +104,12 @@ func (h *H) runGenBurst(r *Rig, p *Peer, ctr0 uint32, tag string, next func(i in
 		return burst{fs, wantOuts, wantDeliv, classes, last}
 	}
 
+	discard := func(why string) genResult {
+		c.Count("held:discarded")
+		c.Count("held:discarded: " + why)
+		return genResult{ctr: o.LastSys, ended: true, discarded: true}
+	}
+
 	// connect. With the TCP-up hold armed (verif seam) the transport is parked just before its
 	// synchronous NotConnected -> NotSelected commit: the peer writes its first burst AND the barrier
 	// in one write while the commit is held. No frame can be dispatched before the commit returns —
@@ -113,10 +119,9 @@ func (h *H) runGenBurst(r *Rig, p *Peer, ctr0 uint32, tag string, next func(i in
 	if hc := r.hold; hc != nil && hc.armed.Load() {
 		select {
 		case <-hc.held:
-		case <-time.After(stepTimeout):
-			fail("connect", "the transport never called TCPUp", "")
-			emit(true)
-			return genResult{ctr: o.LastSys, ended: true}
+		case <-time.After(rigCeiling):
+			// the scenario could not be set up (nothing about the property was observed): discarded
+			return discard("the transport did not reach TCPUp within the ceiling")
 		}
 		b := build(h.heldBurst)
 		bar := h.newBarrier()
@@ -132,12 +137,12 @@ func (h *H) runGenBurst(r *Rig, p *Peer, ctr0 uint32, tag string, next func(i in
 			_, _ = p.Conn.Write(wire)
 		}()
 		time.Sleep(h.holdFor)
-		close(hc.release)
+		hc.Release()
 		var afterSt hsms.ConnState
 		select {
 		case afterSt = <-hc.after:
-		case <-time.After(stepTimeout):
-			fail("connect", "TCPUp did not return", "")
+		case <-time.After(rigCeiling):
+			return discard("TCPUp did not return within the ceiling")
 		}
 		rsp, all, down, tmo := h.collect(p, bar)
 		var outs []Frame
@@ -148,6 +153,25 @@ func (h *H) runGenBurst(r *Rig, p *Peer, ctr0 uint32, tag string, next func(i in
 				outs = append(outs, f)
 			}
 		}
+		// The active side's Select.req is written by the select goroutine, the barrier's answer by the
+		// async sender: either may reach the peer first. Wait for the Select.req itself (an event, not
+		// a quiet period); anything else read meanwhile is an answer and is judged as such.
+		for !down && !tmo && len(startOuts) < len(want) {
+			f, res := p.Next(rigCeiling)
+			if res == readTimeout {
+				return discard("the peer did not see the active side's Select.req within the ceiling")
+			}
+			if res == readEOF {
+				down = true
+				break
+			}
+			if f.PT == 0 && f.ST == 1 {
+				startOuts = append(startOuts, f)
+			} else {
+				outs = append(outs, f)
+			}
+		}
+		c.Count("held:established")
 		deliv := r.TakeDelivered()
 		obs = append(obs, obsString(selOf(afterSt), "K", startOuts, nil))
 		class := "held-tcpup:" + strings.Join(b.classes, "+")
